@@ -414,10 +414,9 @@ def shards(tier: str, seed: int) -> list[dict]:
     for shape in SHAPES:
         out.append({"part": "timing", "shape": shape})
     # coverage-guided campaigns (atheris / libFuzzer) over the same two strategies
-    n_f = _scale(8000 if tier == "quick" else 2500000)
-    nf = 2 if tier == "quick" else 16
-    for i in range(nf):
-        out.append({"part": "atheris", "which": ("grammar", "text")[i % 2], "runs": n_f // nf, "seed": core.derive_seed(seed, "a", i)})
+    from vlib import fuzz
+
+    out += fuzz.shards("C14", tier, seed, ("grammar", "text"), quick=(2, 4000), thorough=(16, 150000))
     return out
 
 
@@ -457,16 +456,11 @@ def run_shard(spec: dict):
 
         core.hyp_run(strat, spec["n"], spec["seed"], body)
     elif part == "atheris":
+        import sys
+
         from vlib import fuzz
 
-        n, cases, note = fuzz.run_campaign("C14", spec["runs"], spec["seed"], spec["which"])
-        col.evaluations += n
-        col.classes["atheris-executions"] += n
-        col.extra["atheris_campaigns"] = 1
-        if note:
-            col.notes["atheris-skipped:" + note[:80]] += 1
-        for case in cases:
-            col.case(case, True, ["atheris-finding"], check_case(case))
+        fuzz.run_shard(col, sys.modules[__name__], spec)
     elif part == "timing":
         fails, times = check_timing(spec["shape"])
         col.case({"kind": "timing", "shape": spec["shape"]}, True, ["timing"], fails, distinct_by_construction=True)
